@@ -109,9 +109,8 @@ def export_sparse_array(fp: TextIO, A: ttb.sptensor, fmt_data: Optional[str]):
     # TODO: looping through all values may take a long time, can this be more efficient?
     for i in range(A.nnz):
         # 0-based indexing in package, 1-based indexing in file
-        subs = A.subs[i, :] + 1
-        subs.tofile(fp, sep=" ", format="%d")
-        print(end=" ", file=fp)
+        # (as Python integers: `A.subs[i, :] + 1` wraps in a narrow subscript type)
+        print(" ".join(str(int(s) + 1) for s in A.subs[i, :]), end=" ", file=fp)
         val = A.vals[i][0]
         val.tofile(fp, sep=" ", format=fmt_data)
         print(file=fp)
